@@ -131,6 +131,8 @@ func VerifC01RollbackMinedTx() {
 // coin, the balance restored, no debit, no record of the block - and both transactions are pending again, T1's
 // output a pending credit marked spent by T2, C marked spent by T1.
 func VerifC01RollbackSpendChain() {
+	vFixedIDs = true
+	defer func() { vFixedIDs = false }()
 	a := vApplySetupID(true)
 	s := a.s
 	rt.Assume(a.coin.amount.UintValue()+a.outValue <= massutil.MaxAmount().UintValue())
@@ -143,7 +145,7 @@ func VerifC01RollbackSpendChain() {
 	out2 := uint64(rt.NondetU32()) + 1
 	rt.Assume(out2 <= a.outValue)
 	t2.AddTxOut(wire.NewTxOut(int64(out2), vP2WSH(sh2)))
-	vTxIDSeeds = []wire.Hash{vHash()}
+	vTxIDSeeds = []wire.Hash{{0xA2}}
 	T2 := &TxRecord{MsgTx: *t2, TxLoc: &wire.TxLoc{TxStart: 300, TxLen: 50}}
 	T2.Hash = T2.MsgTx.TxHash()
 	rt.Assume(T2.Hash != a.rec.Hash && T2.Hash != a.coin.outPoint.Hash)
